@@ -60,6 +60,15 @@ let rec mul n0 m =
   | O -> O
   | S p -> add m (mul p m)
 
+(** val sub : nat -> nat -> nat **)
+
+let rec sub n0 m =
+  match n0 with
+  | O -> n0
+  | S k -> (match m with
+            | O -> n0
+            | S l -> sub k l)
+
 type positive =
 | XI of positive
 | XO of positive
@@ -638,6 +647,12 @@ let rec nth n0 l default =
   | S m -> (match l with
             | [] -> default
             | _ :: t -> nth m t default)
+
+(** val rev : 'a1 list -> 'a1 list **)
+
+let rec rev = function
+| [] -> []
+| x :: l' -> app (rev l') (x :: [])
 
 (** val map : ('a1 -> 'a2) -> 'a1 list -> 'a2 list **)
 
@@ -1734,15 +1749,15 @@ let borders_spec mode f bc p =
 
 (** val upd_ext : z list -> z list -> z list **)
 
-let rec upd_ext ext pos =
-  match ext with
-  | [] -> ext
+let rec upd_ext ext0 pos =
+  match ext0 with
+  | [] -> ext0
   | lo :: l ->
     (match l with
-     | [] -> ext
+     | [] -> ext0
      | hi :: r ->
        (match pos with
-        | [] -> ext
+        | [] -> ext0
         | p :: q ->
           (Z.min lo p) :: ((Z.max hi (Z.add p (Zpos XH))) :: (upd_ext r q))))
 
@@ -1754,7 +1769,8 @@ let ext_init sh =
 (** val bbox_scan : arr -> z list **)
 
 let bbox_scan f =
-  fold_left (fun ext p -> if Z.eqb (aget f p) Z0 then ext else upd_ext ext p)
+  fold_left (fun ext0 p ->
+    if Z.eqb (aget f p) Z0 then ext0 else upd_ext ext0 p)
     (all_positions f.shape) (ext_init f.shape)
 
 (** val bbox_generic : arr -> z list **)
@@ -2371,3 +2387,194 @@ let cwatershed surf markers bc want_lines =
 let flood_spec surf markers bc want_lines =
   let z0 = repeat Z0 (length surf.data) in
   ws_run resolve_checked ws_neighbours_all surf markers bc want_lines z0 z0
+
+type ext =
+| NegInf
+| Fin of z * z
+
+(** val ext_lt_frac : ext -> z -> z -> bool **)
+
+let ext_lt_frac z0 a b =
+  match z0 with
+  | NegInf -> true
+  | Fin (c, d) -> Z.ltb (Z.mul c b) (Z.mul a d)
+
+(** val ext_lt_int : ext -> z -> bool **)
+
+let ext_lt_int z0 q =
+  match z0 with
+  | NegInf -> true
+  | Fin (c, d) -> Z.ltb c (Z.mul q d)
+
+(** val hull_pop : z list -> z -> (z * ext) list -> (z * ext) list **)
+
+let rec hull_pop f q hull = match hull with
+| [] -> (q, NegInf) :: []
+| p :: rest ->
+  let (vk, zk) = p in
+  let num =
+    Z.sub (Z.add (nthZ Z0 f q) (Z.mul q q))
+      (Z.add (nthZ Z0 f vk) (Z.mul vk vk))
+  in
+  let den = Z.mul (Zpos (XO XH)) (Z.sub q vk) in
+  if ext_lt_frac zk num den
+  then (q, (Fin (num, den))) :: hull
+  else hull_pop f q rest
+
+(** val build_hull : z list -> (z * ext) list **)
+
+let build_hull f =
+  fold_left (fun h q -> hull_pop f q h)
+    (zseq (Zpos XH) (sub (length f) (S O))) ((Z0, NegInf) :: [])
+
+(** val sweep_adv : nat -> z -> (z * ext) list -> (z * ext) list **)
+
+let rec sweep_adv fuel q h =
+  match fuel with
+  | O -> h
+  | S n0 ->
+    (match h with
+     | [] -> h
+     | _ :: t ->
+       (match t with
+        | [] -> h
+        | p :: _ ->
+          let (_, z1) = p in if ext_lt_int z1 q then sweep_adv n0 q t else h))
+
+(** val dt1d_with_origin : z list -> (z * z) list **)
+
+let dt1d_with_origin f = match f with
+| [] -> []
+| _ :: _ ->
+  let hull = rev (build_hull f) in
+  snd
+    (fold_left (fun st q ->
+      let h = sweep_adv (length f) q (fst st) in
+      let vk = match h with
+               | [] -> Z0
+               | p :: _ -> let (v, _) = p in v in
+      (h,
+      (app (snd st)
+        (((Z.add (Z.mul (Z.sub q vk) (Z.sub q vk)) (nthZ Z0 f vk)),
+        vk) :: [])))) (zseq Z0 (length f)) (hull, []))
+
+(** val dt1d : z list -> z list **)
+
+let dt1d f =
+  map fst (dt1d_with_origin f)
+
+(** val lmin : z list -> z **)
+
+let lmin = function
+| [] -> Z0
+| x :: t -> fold_left Z.min t x
+
+(** val minplus1d : z list -> z list **)
+
+let minplus1d f =
+  map (fun q ->
+    lmin
+      (map (fun p -> Z.add (Z.mul (Z.sub q p) (Z.sub q p)) (nthZ Z0 f p))
+        (zseq Z0 (length f)))) (zseq Z0 (length f))
+
+(** val line0 : z -> z -> z list -> z -> z list **)
+
+let line0 d sz dat j =
+  map (fun i -> nthZ Z0 dat (Z.add (Z.mul i sz) j)) (zseq Z0 (Z.to_nat d))
+
+(** val pass_axis0 : (z list -> z list) -> z -> z -> z list -> z list **)
+
+let pass_axis0 t1 d sz dat =
+  flat_map (fun i ->
+    map (fun j -> nthZ Z0 (t1 (line0 d sz dat j)) i) (zseq Z0 (Z.to_nat sz)))
+    (zseq Z0 (Z.to_nat d))
+
+(** val block : z -> z -> z list -> z list **)
+
+let block sz i dat =
+  firstn (Z.to_nat sz) (skipn (Z.to_nat (Z.mul i sz)) dat)
+
+(** val dt_nd : (z list -> z list) -> z list -> z list -> z list **)
+
+let rec dt_nd t1 sh dat =
+  match sh with
+  | [] -> dat
+  | d :: r ->
+    let sz = size r in
+    let g = pass_axis0 t1 d sz dat in
+    flat_map (fun i -> dt_nd t1 r (block sz i g)) (zseq Z0 (Z.to_nat d))
+
+(** val dist_inf : z list -> z **)
+
+let dist_inf sh =
+  Z.add (Z.mul (zlen sh) (Z.mul (maxl Z0 sh) (maxl Z0 sh))) (Zpos XH)
+
+(** val dist_init : arr -> z list **)
+
+let dist_init a =
+  map (fun v -> if Z.eqb v Z0 then Z0 else dist_inf a.shape) a.data
+
+(** val distance : arr -> z list **)
+
+let distance a =
+  dt_nd dt1d a.shape (dist_init a)
+
+(** val sqdist : z list -> z list -> z **)
+
+let sqdist p q =
+  sumZ
+    (map (fun ab ->
+      Z.mul (Z.sub (fst ab) (snd ab)) (Z.sub (fst ab) (snd ab)))
+      (combine p q))
+
+(** val distance_spec : arr -> z list **)
+
+let distance_spec a =
+  let bg = filter (fun q -> Z.eqb (aget a q) Z0) (all_positions a.shape) in
+  map (fun p ->
+    match bg with
+    | [] -> dist_inf a.shape
+    | _ :: _ -> lmin (map (sqdist p) bg)) (all_positions a.shape)
+
+(** val line0o : z -> z -> (z * z) list -> z -> (z * z) list **)
+
+let line0o d sz dat j =
+  map (fun i -> nthZ (Z0, Z0) dat (Z.add (Z.mul i sz) j))
+    (zseq Z0 (Z.to_nat d))
+
+(** val t1o : (z * z) list -> (z * z) list **)
+
+let t1o l =
+  map (fun dv -> ((fst dv), (snd (nthZ (Z0, Z0) l (snd dv)))))
+    (dt1d_with_origin (map fst l))
+
+(** val pass_axis0o : z -> z -> (z * z) list -> (z * z) list **)
+
+let pass_axis0o d sz dat =
+  flat_map (fun i ->
+    map (fun j -> nthZ (Z0, Z0) (t1o (line0o d sz dat j)) i)
+      (zseq Z0 (Z.to_nat sz))) (zseq Z0 (Z.to_nat d))
+
+(** val blocko : z -> z -> (z * z) list -> (z * z) list **)
+
+let blocko sz i dat =
+  firstn (Z.to_nat sz) (skipn (Z.to_nat (Z.mul i sz)) dat)
+
+(** val dt_ndo : z list -> (z * z) list -> (z * z) list **)
+
+let rec dt_ndo sh dat =
+  match sh with
+  | [] -> dat
+  | d :: r ->
+    let sz = size r in
+    let g = pass_axis0o d sz dat in
+    flat_map (fun i -> dt_ndo r (blocko sz i g)) (zseq Z0 (Z.to_nat d))
+
+(** val gvoronoi : arr -> z list **)
+
+let gvoronoi lab =
+  let f =
+    map (fun v -> if Z.eqb v Z0 then dist_inf lab.shape else Z0) lab.data
+  in
+  let o = dt_ndo lab.shape (combine f (zseq Z0 (length f))) in
+  map (fun vo -> nthZ Z0 lab.data (snd vo)) o
